@@ -729,7 +729,7 @@ class BroadcastJoin(Merge, PartitionsFiltered):
             "right_on": self.right_on,
         }
         dsk = {}
-        for part_out in self._partitions:
+        for i, part_out in enumerate(self._partitions):
             if self.how != "inner":
                 dsk[(split_name, part_out)] = (
                     _split_partition,
@@ -764,7 +764,8 @@ class BroadcastJoin(Merge, PartitionsFiltered):
                     kwargs,
                 )
                 _concat_list.append(inter_key)
-            dsk[(self._name, part_out)] = (_concat_wrapper, _concat_list)
+            # output partition i is the selected partition ``_partitions[i]``
+            dsk[(self._name, i)] = (_concat_wrapper, _concat_list)
         return dsk
 
 
